@@ -1192,6 +1192,12 @@ impl<'ast> LoweringContext<'ast> {
                                 self.errors.push(LoweringError::Other("Found Option<T> for struct/enum T in a struct field, please use DiplomatOption<T>".into()));
                                 return Err(());
                             }
+                            if in_result_option && *stdlib == ast::StdlibOrDiplomat::Stdlib {
+                                // the proc macro only converts a top-level Option; nested in a Result (or another Option)
+                                // the std type would cross the boundary as is
+                                self.errors.push(LoweringError::Other("Found Option<T> for struct/enum T inside a Result or Option, please use DiplomatOption<T>".into()));
+                                return Err(());
+                            }
                             if !self.attr_validator.attrs_supported().option {
                                 self.errors.push(LoweringError::Other("Options of structs/enums/primitives not supported by this backend".into()));
                             }
@@ -1204,6 +1210,10 @@ impl<'ast> LoweringContext<'ast> {
                 ast::TypeName::Primitive(prim) => {
                     if in_struct && *stdlib == ast::StdlibOrDiplomat::Stdlib {
                         self.errors.push(LoweringError::Other("Found Option<T> for primitive T in a struct field, please use DiplomatOption<T>".into()));
+                        return Err(());
+                    }
+                    if in_result_option && *stdlib == ast::StdlibOrDiplomat::Stdlib {
+                        self.errors.push(LoweringError::Other("Found Option<T> for primitive T inside a Result or Option, please use DiplomatOption<T>".into()));
                         return Err(());
                     }
                     if !self.attr_validator.attrs_supported().option {
